@@ -671,7 +671,7 @@ var latencies []time.Duration
 var firstViolation time.Time
 var firstTiming bool
 
-const shrinkBudget = 20 * time.Second
+const shrinkBudget = 12 * time.Second
 
 func property(t *testing.T, quick, thorough int, prop func(*rapid.T)) {
 	if firstTiming && !vkit.Thorough() {
